@@ -1,13 +1,51 @@
 /-
   C08  Exit status faithfully summarises the run.
-  PROPERTY THEOREMS ONLY (helper lemmas live in PdshVerif/Dsh/ExitLemmas.lean).
+  PROPERTY THEOREMS ONLY (helper lemmas live in PdshVerif/Dsh/Exit{Lemmas,Refine,Relay,Fan}.lean).
 
   Model: PdshVerif/Dsh/Exit.lean (mirror of _extract_rc, _flush_lines' rc update, rcmd_destroy fallback,
   exec_destroy, the -S loop of dsh(), main's mapping).  Spec: PdshVerif/Dsh/ExitSpec.lean.
 
-  `Fixes.none` = the code as it is in /repo; a theorem that needs a repair says which switch
-  (`fx.d7/d8/d9/late = true`).  Where the statement is FALSE of the unchanged code there is a
+  `Fixes.none` = the code as it was at the pinned commit; a theorem that needs a repair says which switch
+  (`fx.d7/d8/d9/late/canc = true`).  Where the statement is FALSE of the unchanged code there is a
   kernel-checked counterexample `..._unchanged_false` and, where useful, a `..._partial` form.
+
+  CLAUSE OF THE PROPERTY TEXT                                   THEOREM(S)
+  "without -S or -k pdsh exits 0 after a run it was able to      noS_exit0; pcp_exit0 (pdcp / rpdcp have neither option:
+   start"                                                         composed with C18's generated option strings)
+  "and 1 when it refuses its arguments"                          refused_exit1, option_refusal_exit1 (composed with C18's
+                                                                 `effective`: every refusal of the option stage is 1),
+                                                                 abort_exit1 / sigint_abort_nonzero (^C, composed with C20)
+  "with -S the exit status is the largest return code of any     S_is_max (repaired D8; S_is_max_unchanged_false,
+   remote command, raised to 254 if any host could not be        S_is_max_partial), aggregate_perm, mainExit_perm,
+   reached or timed out"                                         timeout_failed, timeout_nonzero
+  "so it is 0 only if every command on every target ran and      S_zero_iff (repaired `canc`), S_zero_iff_seen,
+   succeeded"                                                    S_zero_iff_unchanged, canceled_counts_as_success /
+                                                                 canceled_counts_as_failure (F08-CANCELED)
+  "a command that terminates abnormally never counts as          abnormal_nonzero (repaired D7; _unchanged_false)
+   success"
+  "with -k any failure makes the exit status non-zero"           k_any_failure_nonzero, k_out_of_band_failure (the -k test
+                                                                 reads the status AFTER the teardown merge),
+                                                                 out_of_band_rc_before_teardown
+  quantifier "in any completion order"                           one_status_per_target, exit_any_schedule (composed with
+                                                                 the fan-out LTS of C03: every schedule of every fanout)
+  mechanism "marker appended to command"                         marker_requested, sent_command_keeps_command
+  quantifier "status in-band (marker line)"                      extractRc_correct (D9; _unchanged_false, _partial),
+                                                                 hostRc_inband (LATE; late_line_unchanged_false),
+                                                                 inband_host_faithful, inband_exit_admissible,
+                                                                 inband_rc_any_chunking(_index), inband_end_to_end(_max)
+                                                                 (composed with the relay model of C05/C06 and cbuf of C13)
+  quantifier "or out-of-band (child wait status)"                exec_exit_admissible
+  the whole statement, both channels                             faithful_exit_admissible
+
+  NOT PROVED / NOT MODELLED:
+    * `pipecmd_wait` / `waitpid` (that exec_destroy blocks until the child is gone and returns its real status): real
+      children in the harness (`xd`, late-exit children) and the real binary, no theorem.
+    * the -k fail-fast is modelled by its effect on the exit status (`kFails` on the per-target data AFTER the teardown
+      merge: k_out_of_band_failure), not as a transition of the fan-out LTS (which sibling is killed when): the real
+      dsh() (scripted transport) and the real binary run out-of-band failure x -k x position in every quick run.
+    * `_die_if_signalled` (a marker code > 128 in mid-stream under -k): time dependent; generator keeps clear of it.
+    * the Linux wait-status encoding, glibc atoi / strstr: modelled (Exit.lean, Base/CInt.lean), not verified.
+    * pdcp / rpdcp: the exit status of a copy run is 0 whatever was copied (pcp_exit0); whether files arrived is C11.
 -/
 import PdshVerif.Dsh.Exit
 import PdshVerif.Dsh.ExitSpec
@@ -16,6 +54,9 @@ import PdshVerif.Dsh.ExitRefine
 import PdshVerif.Dsh.ExitRelay
 import PdshVerif.Relay.IndexSim
 import PdshVerif.Dsh.SignalsAbort
+import PdshVerif.Dsh.ExitFan
+import PdshVerif.Dsh.FanExec
+import PdshVerif.Opt.Command
 
 namespace PdshVerif.C08
 open PdshVerif PdshVerif.Dsh PdshVerif.Dsh.Exit
@@ -126,6 +167,29 @@ theorem canceled_counts_as_failure (fx : Fixes) (hc : fx.canc = true) :
   have : RC_FAILED = 254 := by decide
   cases hd : fx.d8 <;> simp [aggregate, aggLoop, seen, hc, hd, this] <;> omega
 
+/-! ## the request for the status: "marker appended to command" -/
+
+/-- THE STATUS IS ASKED FOR exactly when it is needed: with -S or with -k the command string handed to the transport
+    is the user's command followed by `;echo XXRETCODE:$?` (so that an in-band transport's remote shell prints the
+    marker line `extractRc_correct` reads); without both flags it is the user's command, verbatim -/
+theorem marker_requested (fl : Flags) (cmd : Str) :
+    ((fl.S = true ∨ fl.k = true) → sentCommand fl cmd = cmd ++ ";echo XXRETCODE:$?".toList) ∧
+    (fl.S = false → fl.k = false → sentCommand fl cmd = cmd) := by
+  have hg : getstat = ";echo XXRETCODE:$?".toList := by decide
+  constructor
+  · intro h
+    unfold sentCommand
+    rcases h with h | h <;> simp [h, hg]
+  · intro h1 h2
+    simp [sentCommand, h1, h2]
+
+/-- the user's command is a prefix of what is sent in every case: nothing is inserted in front or inside -/
+theorem sent_command_keeps_command (fl : Flags) (cmd : Str) : cmd <+: sentCommand fl cmd := by
+  unfold sentCommand
+  split
+  · exact List.prefix_append _ _
+  · exact List.prefix_refl _
+
 /-! ## marker extraction -/
 
 /-- repaired `_extract_rc` (D9): on the marker line `pre ++ "XXRETCODE:" ++ decimal c ++ "\n"` whose `pre`
@@ -208,6 +272,33 @@ theorem k_any_failure_nonzero (fx : Fixes) (S : Bool) (hs : List Host) (h : ∃ 
     mainExit fx ⟨S, true⟩ (.started hs) = 1 := by
   have : hs.any kFails = true := by simpa [List.any_eq_true] using h
   simp [mainExit, this]
+
+/-- -k SEES THE TEARDOWN STATUS (repaired D7): for the out-of-band channel the status of a target arrives only at
+    its teardown (`rv = rcmd_destroy`, merged into `rc` by `finalRc`); the -k test reads the merged value, so EVERY
+    failure in the property's domain — a non-zero code, death by a signal, an unreachable host, a time-out — fires it,
+    in whatever position the target stands, and the exit status is 1.  (A -k test placed before the merge would see
+    `rc = 0` for each of them: the class of the seeded changes C08-3 / -5 / -8.) -/
+theorem k_out_of_band_failure (fx : Fixes) (hd7 : fx.d7 = true) (S : Bool) (outs : List Outcome)
+    (hok : ∀ o ∈ outs, okOutcome o) (hfail : ∃ o ∈ outs, o.isFailure = true) :
+    mainExit fx ⟨S, true⟩ (.started (outs.map fun o => hostOf fx (execScript fx o))) = 1 := by
+  obtain ⟨o, ho, hf⟩ := hfail
+  apply k_any_failure_nonzero
+  refine ⟨hostOf fx (execScript fx o), List.mem_map.mpr ⟨o, ho, rfl⟩, ?_⟩
+  rw [execHost_eq fx hd7 o (hok o ho)]
+  cases o with
+  | exited c =>
+    cases c with
+    | zero => simp [ExitSpec.Outcome.isFailure] at hf
+    | succ c => simp [kFails, execHostSpec] <;> omega
+  | killed s => simp [kFails, execHostSpec] <;> omega
+  | connectFailed => simp [kFails, execHostSpec]
+  | timedOut => simp [kFails, execHostSpec]
+
+/-- ... while the value BEFORE the merge is 0 for every out-of-band failure that is reachable: the teardown status
+    is the only carrier -/
+theorem out_of_band_rc_before_teardown (fx : Fixes) (o : Outcome) :
+    rcAfterLines fx (splitLines (execScript fx o).stdout) = 0 := by
+  cases o <;> simp [execScript, splitLines_nil, rcAfterLines]
 
 /-! ## the repaired model refines the specification, for every status channel -/
 
@@ -461,5 +552,89 @@ theorem inband_end_to_end_max (fx : Fixes) (hd8 : fx.d8 = true) (cfg : Relay.Cfg
   simp only [Bool.false_eq_true, if_false, Bool.false_and, Bool.not_true, hk, decide_eq_true_eq] at h
   rw [h]
   simp [ExitSpec.base, hu]
+
+/-! ## composed with the fan-out LTS of C03 (every schedule) and with the option model of C18 -/
+
+/-- repaired -S loop (D8): the exit status does not depend on the order of the targets, with or without -S / -k -/
+theorem mainExit_perm (fx : Fixes) (hd8 : fx.d8 = true) (fl : Flags) {hs hs' : List Host} (p : hs.Perm hs') :
+    mainExit fx fl (.started hs) = mainExit fx fl (.started hs') := by
+  have hk : hs.any kFails = hs'.any kFails := by
+    rw [Bool.eq_iff_iff]
+    simp only [List.any_eq_true]
+    exact ⟨fun ⟨x, hx, hp⟩ => ⟨x, p.mem_iff.mp hx, hp⟩, fun ⟨x, hx, hp⟩ => ⟨x, p.mem_iff.mpr hx, hp⟩⟩
+  unfold mainExit dshReturn
+  simp only [hk, aggregate_perm fx hd8 p]
+
+/-- ONE STATUS PER TARGET, EVERY SCHEDULE (imported from the fan-out LTS of C03, `Hist` / `Inv.fin`): when dsh()
+    has returned — for every fanout, every variant of the dispatcher, every interleaving of dispatcher and workers —
+    the teardowns (`rcmd_destroy`, after which `t[i].rc` is final) that happened are exactly one for each of the
+    `n` targets: `finished ls`, the completion order of the schedule, is a permutation of `0 .. n-1` -/
+theorem one_status_per_target {v : Fan.Variant} {f n : Nat} {ls : List Fan.Label} {s : Fan.St}
+    (he : Fan.Exec (Fan.init v f n) ls s) (hf : Fan.Final s) : (ExitFan.finished ls).Perm (List.range n) :=
+  ExitFan.finished_perm_range he hf
+
+/-- EXIT STATUS OVER THE FAN-OUT, ANY COMPLETION ORDER (repaired D8): take any terminated execution of the fan-out
+    LTS over `n` targets and statuses `hs` faithful to the outcome vector `outs`.  The statuses in the order the
+    schedule PRODUCED them are a permutation of the array the -S loop reads (one per target, none twice, none
+    missing), the exit status computed from either is the same, and it is one the specification admits —
+    "in any completion order, with and without -S / -k". -/
+theorem exit_any_schedule (fx : Fixes) (hd8 : fx.d8 = true) (S k : Bool)
+    {v : Fan.Variant} {f n : Nat} {ls : List Fan.Label} {s : Fan.St}
+    (he : Fan.Exec (Fan.init v f n) ls s) (hf : Fan.Final s)
+    (outs : List Outcome) (hs : List Host) (hn : hs.length = n) (hrel : AllFaithful outs hs)
+    (hok : ∀ o ∈ outs, okOutcome o) :
+    ((ExitFan.finished ls).map fun i => hs.getD i ⟨.done, 0⟩).Perm hs ∧
+    mainExit fx ⟨S, k⟩ (.started ((ExitFan.finished ls).map fun i => hs.getD i ⟨.done, 0⟩)) =
+      mainExit fx ⟨S, k⟩ (.started hs) ∧
+    ExitSpec.admissible S k false outs
+      (mainExit fx ⟨S, k⟩ (.started ((ExitFan.finished ls).map fun i => hs.getD i ⟨.done, 0⟩))) = true := by
+  have hp : ((ExitFan.finished ls).map fun i => hs.getD i ⟨.done, 0⟩).Perm hs := by
+    have := (one_status_per_target he hf).map (fun i => hs.getD i (⟨.done, 0⟩ : Host))
+    rw [← hn, ExitFan.map_range_getD] at this
+    exact this
+  have he' := mainExit_perm fx hd8 ⟨S, k⟩ hp
+  exact ⟨hp, he', by rw [he']; exact faithful_exit_admissible fx hd8 S k outs hs hrel hok⟩
+
+/-- the hypotheses of `exit_any_schedule` are satisfiable: a complete schedule of two targets with fanout 1 (one
+    spurious wake-up), second target's teardown after the first's -/
+def witnessRun : List Fan.Label :=
+  [.d .lock, .d (.create 0), .d .unlock, .d .lock, .d .wait,
+   .w 0 .connectBegin, .w 0 .connectEnd, .w 0 .destroyBegin, .w 0 .destroyEnd, .w 0 .lock, .w 0 .signal,
+   .d (.wake false), .w 0 .unlock, .d .relock, .d (.create 1), .d .unlock, .d .lock, .d .wait,
+   .d (.wake true), .d .relock, .d .wait,
+   .w 1 .connectBegin, .w 1 .connectEnd, .w 1 .destroyBegin, .w 1 .destroyEnd, .w 1 .lock, .w 1 .signal,
+   .w 1 .unlock, .d (.wake false), .d .relock, .d .unlock, .d .ret]
+
+example : ∃ s, Fan.Exec (Fan.init .whileWait 1 2) witnessRun s ∧ Fan.Final s ∧ ExitFan.finished witnessRun = [0, 1] := by
+  have hd : (Fan.run (Fan.init .whileWait 1 2) witnessRun).map (·.dpc) = some .returned := by decide
+  cases h : Fan.run (Fan.init .whileWait 1 2) witnessRun with
+  | none => rw [h] at hd; cases hd
+  | some s =>
+    rw [h] at hd
+    exact ⟨s, Fan.exec_of_run h, by simpa [Fan.Final] using hd, by decide⟩
+
+/-- PDCP / RPDCP (the property's -S / -k clauses are about pdsh): the generated option strings of the copy
+    personalities contain neither `S` nor `k` (C18.personality_letters), so in every accepted copy run both flags
+    are off and a copy run that was started exits 0 whatever happened on the targets — the first clause of the
+    property ("without -S or -k pdsh exits 0 after a run it was able to start") is the only one that applies.
+    (`hm*`: no module registers an option -S / -k.) -/
+theorem pcp_exit0 {ofx : Opt.Fixes} {d : Opt.Defaults} {p : Opt.Pers} {env : Opt.Env} {argv : List Opt.Str}
+    {c : Opt.Cfg} (hmS : Opt.optKind (Opt.fullString d p) 'S' = none) (hmk : Opt.optKind (Opt.fullString d p) 'k' = none)
+    (h : Opt.effective ofx d p env argv = .ok c) (fx : Fixes) (hs : List Host) :
+    mainExit fx ⟨c.retRemoteRc, c.killOnFail⟩ (.started hs) = 0 := by
+  obtain ⟨h1, h2⟩ := Opt.pcp_flags_off hmS hmk h
+  rw [h1, h2]
+  exact noS_exit0 fx hs
+
+/-- REFUSED ARGUMENTS, composed with the option model of C18: whenever main ends before dsh() — a malformed
+    variable, a bad option value, an unknown transport, opt_verify — and no information-only option (-L -V -T) is on
+    the command line, the status the option model gives is the `refused` status of this model: 1 -/
+theorem option_refusal_exit1 {ofx : Opt.Fixes} {d : Opt.Defaults} {p : Opt.Pers} {env : Opt.Env} {argv : List Opt.Str}
+    {n : Nat} (h : Opt.effective ofx d p env argv = .exit n)
+    (hinfo : ∀ t ∈ (Opt.getopt (Opt.fullString d p) argv).1, Opt.action ofx d t ≠ .exit 0) (fx : Fixes) (fl : Flags) :
+    n = mainExit fx fl .refused := by
+  rcases Opt.effective_exit_code h with h1 | ⟨_, t, hm, ha⟩
+  · rw [h1]; rfl
+  · exact absurd ha (hinfo t hm)
 
 end PdshVerif.C08
